@@ -98,10 +98,22 @@ pub fn case(seed: u64, st: &mut Stats) {
         let lvl: &mut CmdSpec = if at_sub { &mut root.subs[sub_idx] } else { &mut root };
         lvl.args.retain(|a| !a.is_positional());
         let n = lvl.args.len();
-        if with_lead {
-            lvl.args.push(ArgSpec { id: format!("lead{}", n), action: Some(Act::Set), vp: Some(if os_parser { Vp::Os } else { Vp::Str }), ..Default::default() });
+        // explicit indices, sometimes with the higher index declared first (declaration order is
+        // not index order)
+        let explicit_index = with_lead && rng.chance(1, 3);
+        let rest_first = explicit_index && rng.coin();
+        let lead_spec = ArgSpec {
+            id: format!("lead{}", n),
+            action: Some(Act::Set),
+            vp: Some(if os_parser { Vp::Os } else { Vp::Str }),
+            index: if explicit_index { Some(1) } else { None },
+            ..Default::default()
+        };
+        if with_lead && !rest_first {
+            lvl.args.push(lead_spec.clone());
         }
         lvl.args.push(ArgSpec {
+            index: if explicit_index { Some(2) } else { None },
             id: "rest".into(),
             action: Some(if rng.coin() { Act::Append } else { Act::Set }),
             num_args: Some((min, usize::MAX)),
@@ -112,6 +124,9 @@ pub fn case(seed: u64, st: &mut Stats) {
             vp: Some(if os_parser { Vp::Os } else { Vp::Str }),
             ..Default::default()
         });
+        if with_lead && rest_first {
+            lvl.args.push(lead_spec);
+        }
         if rng.chance(1, 6) {
             lvl.set(Setting::DontDelimitTrailingValues);
         }
